@@ -348,7 +348,9 @@ def shapes():
     ops = [("Label", cst(0, 16)), ("Literal", k[0]), ("Print", k[1], r1), ("Array",), ("Object", k[2]), ("GetField", k[3]), ("SetField", k[4]), ("CallMethod", k[5], r2),
            ("CallFunction", k[6], sym("r3", 8)), ("SetLocal", k[7]), ("GetLocal", k[8]), ("SetGlobal", k[9]), ("GetGlobal", k[10]), ("Branch", cst(0, 16)), ("Jump", cst(0, 16)),
            ("Return",), ("Drop",)]
-    consts = [("String", "l"), ("Method", cst(0, 16), a1, l1, 0, 17), ("Null",), ("Boolean", b1)]
+    # a class that lists its method before its slot, and one that repeats a member
+    consts = [("String", "l"), ("Method", cst(0, 16), a1, l1, 0, 17), ("Null",), ("Boolean", b1), ("Slot", cst(0, 16)),
+              ("Class", [cst(1, 16), cst(4, 16)]), ("Class", [cst(4, 16), cst(1, 16), cst(4, 16)])]
     S.append(Shape("every-instruction", consts, ops, [], e1))
     # empty program parts
     S.append(Shape("empty-pool", [], [], [], e1))
